@@ -232,10 +232,21 @@ class SafeConstructor(BaseConstructor):
 
     def construct_yaml_bool(self, node):
         value = self.construct_scalar(node)
-        return self.bool_values[value.lower()]
+        try:
+            return self.bool_values[value.lower()]
+        except KeyError:
+            raise ConstructorError(None, None,
+                    "invalid boolean value %r" % value, node.start_mark)
 
     def construct_yaml_int(self, node):
         value = self.construct_scalar(node)
+        try:
+            return self.convert_yaml_int(value)
+        except (ValueError, IndexError):
+            raise ConstructorError(None, None,
+                    "invalid integer value %r" % value, node.start_mark)
+
+    def convert_yaml_int(self, value):
         value = value.replace('_', '')
         sign = +1
         if value[0] == '-':
@@ -269,6 +280,13 @@ class SafeConstructor(BaseConstructor):
 
     def construct_yaml_float(self, node):
         value = self.construct_scalar(node)
+        try:
+            return self.convert_yaml_float(value)
+        except (ValueError, IndexError):
+            raise ConstructorError(None, None,
+                    "invalid float value %r" % value, node.start_mark)
+
+    def convert_yaml_float(self, value):
         value = value.replace('_', '').lower()
         sign = +1
         if value[0] == '-':
@@ -322,7 +340,16 @@ class SafeConstructor(BaseConstructor):
     def construct_yaml_timestamp(self, node):
         value = self.construct_scalar(node)
         match = self.timestamp_regexp.match(node.value)
-        values = match.groupdict()
+        if match is None:
+            raise ConstructorError(None, None,
+                    "invalid timestamp value %r" % value, node.start_mark)
+        try:
+            return self.convert_yaml_timestamp(match.groupdict())
+        except ValueError:
+            raise ConstructorError(None, None,
+                    "invalid timestamp value %r" % value, node.start_mark)
+
+    def convert_yaml_timestamp(self, values):
         year = int(values['year'])
         month = int(values['month'])
         day = int(values['day'])
